@@ -18,6 +18,8 @@ import (
 	"context"
 	"encoding/json"
 	"fmt"
+	"go/token"
+	"go/types"
 	"os"
 	"os/exec"
 	"path/filepath"
@@ -470,6 +472,53 @@ func (h *harness) evalCases(cases []*Case) []*caseResult {
 	return res
 }
 
+// goTypeNameRef is the rule of fix 08, stated with the standard library the tool uses.
+func goTypeNameRef(name string) string {
+	if token.IsKeyword(name) || types.Universe.Lookup(name) != nil || name == "json" {
+		return name + "_"
+	}
+	return name
+}
+
+// reservedTable compares the model's table of reserved identifiers with go/token and go/types,
+// exhaustively over all keywords and predeclared identifiers plus a few names that must not be escaped.
+func (h *harness) reservedTable() {
+	if h.model == nil {
+		return
+	}
+	var words []string
+	for t := token.Token(0); t < 200; t++ {
+		if t.IsKeyword() {
+			words = append(words, t.String())
+		}
+	}
+	words = append(words, types.Universe.Names()...)
+	words = append(words, "json", "Color", "int_", "Int", "String", "select_", "sel", "typ", "Type", "JSON", "jsons", "in", "t", "unit_kind")
+	lines := make([]string, len(words))
+	for i, w := range words {
+		lines[i] = hx.N("goTypeName", hx.A(w)).String()
+	}
+	replies, err := h.model.AskAll(lines)
+	if err != nil {
+		fmt.Fprintln(os.Stderr, "model driver failed:", err)
+		os.Exit(2)
+	}
+	bad := ""
+	for i, w := range words {
+		got := replies[i]
+		if x, err := hx.ParseSexp(replies[i]); err == nil && !x.IsList {
+			got = x.Atom
+		}
+		if want := goTypeNameRef(w); got != want && bad == "" {
+			bad = fmt.Sprintf("goTypeName(%q): go/token+go/types give %q, the model %q", w, want, got)
+		}
+	}
+	h.run.Oblige("reserved-identifier table (model vs go/token keywords + go/types universe, exhaustive)", "exhaustive", len(words), bad == "", bad)
+	if bad != "" {
+		h.run.Violate("correspondence", bad, "", true, map[string]string{"table": bad})
+	}
+}
+
 func clip(s string, n int) string {
 	if len(s) > n {
 		return s[:n] + "…"
@@ -488,18 +537,8 @@ func firstLines(s string, n int) string {
 // ---- reporting, classification, shrinking ----------------------------------------------------------
 
 // findingKey attaches an open finding to a failing case (narrow predicates on case + failure mode).
+// C20 has no open finding at present.
 func findingKey(r *caseResult, f *failure) string {
-	if f.Kind != "property" {
-		return ""
-	}
-	switch {
-	case r.clashKind == "key-vs-holder" && f.Mode == "compile" && strings.Contains(f.What, "redeclared"):
-		// a response key and a fragment holder get the same Go field name: duplicate struct field
-		return "F-20d-response-key-vs-fragment-holder-name"
-	case r.clashKind == "dup-cond" && f.Mode == "leaf" && (strings.Contains(f.What, "no struct field receives") || strings.Contains(f.What, "has no holder")):
-		// two inline fragments with the same type condition: the later one replaces the earlier one's struct
-		return "F-20e-repeated-type-condition-loses-fields"
-	}
 	return ""
 }
 
@@ -630,7 +669,8 @@ func main() {
 		h.model = m
 		defer m.Close()
 	}
-	run.SetRule("cases = generated schema (enums, objects, interfaces, unions, built-in scalars, list/non-null nesting; served as real introspection JSON) × 1–3 gql() documents (one named operation + named fragments each; aliases, arguments, inline/named/untyped fragments on objects, interfaces and unions, __typename plain or aliased) × 4 resolver worlds (null rates 25/0/60/10 %, abstract positions rotated through every concrete type); streams: 63 % valid in-envelope, 14 % invalidated by one of 9 mutations, 8 % valid without __typename, 8 % deliberate Go-name collisions (F-20d), 4 % colliding enum constants (F-20f), 3 % anonymous; distinct = distinct (schema, documents); non-trivial = valid in-envelope case with a fragment applied to an interface/union, whose decoded responses contained a null, a list and a type-conditioned fragment that applied")
+	h.reservedTable()
+	run.SetRule("cases = generated schema (enums, objects, interfaces, unions, built-in scalars, list/non-null nesting; served as real introspection JSON) × 1–3 gql() documents (one named operation + named fragments each; aliases, arguments, inline/named/untyped fragments on objects, interfaces and unions, __typename plain or aliased) × 4 resolver worlds (null rates 25/0/60/10 %, abstract positions rotated through every concrete type); streams: 63 % valid in-envelope, 14 % invalidated by one of 9 mutations, 8 % valid without __typename, 8 % deliberate Go-name collisions and repeated type conditions (the former findings F-20d/e), 4 % enum constants sharing a camel-cased name (former F-20f), 3 % anonymous; distinct = distinct (schema, documents); non-trivial = valid in-envelope case with a fragment applied to an interface/union, whose decoded responses contained a null, a list and a type-conditioned fragment that applied")
 
 	if dir := os.Getenv("C20_DUMP_HANDPICKED"); dir != "" {
 		os.MkdirAll(filepath.Join(dir, "corpus", "C20"), 0o755)
